@@ -42,6 +42,22 @@ CLAIMS = {
          "KNOWN FINDING KF1: thread-local systems inside a batch builder are invisible to the accessor (stated on the model as "
          "C07_KF1_..., witness corpus/exec-kf1.txt)",
          "structural induction on nesting + differential correspondence", "5 C07"),
+ "C08": ("proof: C08_borrow_discipline_is_invariant: for EVERY history of world operations (typed and by-id fetch forms, clones, drops, "
+         "reads/writes through guards, insert/remove/entry/get_mut/has) the reached state has every cell unborrowed, or shared by "
+         "exactly its live shared guards, or exclusive with exactly one live exclusive guard; no aliasing guard; failing operations "
+         "change nothing; None iff absent; drop releases exactly one borrow. tie: S3 — after EVERY operation of exhaustive "
+         "(len<=4) and random histories (len<=200, 4 resource types of different layout x 3 dynamic ids) outcome, presence, borrow "
+         "class (probed on the real AtomicRefCell), value and drop ledger of the real World must equal the model's",
+         "single-threaded histories; the atomicity of atomic_refcell's counter operations under concurrent use is modelled, not "
+         "verified (the concurrent use of the world is exercised by suite S2: real borrows under forced overlap)",
+         "state-machine invariant by induction over histories + differential correspondence", "5 C08"),
+ "C09": ("proof: refinement of the world to a finite map keyed by (type, dynamic id): insert replaces, remove returns the stored "
+         "value, entry never overwrites, presence and fetch+read agree with the map, slots with other dynamic ids untouched (frame); "
+         "stored type = key type in every reachable state; mismatching type argument => panic and unchanged world; accounting "
+         "theorem: every object ever created is stored in exactly one slot or dropped exactly once. tie: S3 incl. mismatching type "
+         "arguments on every id-taking call, get_mut_raw().type_id(), drop-counting values, teardown ledger",
+         "memory-level effects of the unchecked downcasts are outside the model (type_inv is the reason they are sound)",
+         "refinement + invariant induction + differential correspondence", "5 C09"),
  "C10": ("proof: C10_every_skipped_stage_is_forced for all registration programs (invariant `justified` carried through the whole "
          "registration history: a skipped stage holds an earlier-registered conflicting system or a dependency sits in it or behind it), "
          "corollary: compatible dependency-free systems share the first stage behind the barrier; max_threads = widest stage; tie: S1, "
@@ -82,7 +98,7 @@ CLAIMS = {
          "stage/group and are outside the text",
          "invariant induction + differential correspondence", "5 C20"),
 }
-REGISTERED = ["C01", "C02", "C03", "C04", "C05", "C07", "C10", "C12", "C13", "C14", "C18", "C20"]
+REGISTERED = ["C01", "C02", "C03", "C04", "C05", "C07", "C08", "C09", "C10", "C12", "C13", "C14", "C18", "C20"]
 
 def main():
     props = [json.loads(l) for l in open(os.path.join(VERIF, "properties.jsonl"))]
